@@ -23,7 +23,11 @@ from ..ref import bls as ref
 ID = "C01"
 LEVEL = "model_checking"
 DESIGN_REF = "DESIGN.md 4/C01"
-CASE_TIMEOUT = 90.0  # a single (tree | lemma | history) case takes well under a second on a correct tree
+# A quick-tier case takes well under a second on a correct tree.  The thorough tier's depth-3 trees with two nested far counts
+# (pad(rep(rng(leaf, 2**31), 2**63), 8)) legitimately need minutes of the implementation's own residue enumeration for the 64
+# divisors x 2 passes (3.5 s per query, see C16 for what is and is not promised about cost), so the per-case processor-time
+# budget must not be tighter than that: 90 s raised 12 false `timeout` alarms in the thorough tier.
+CASE_TIMEOUT = 900.0
 RULE = (
     "(A) (d, R, op, k): all non-empty R subset of Z_d, d<=D, k in 0..3d+2 plus far counts {2**31, 2**63, 2**63+1, 10**18+9}, "
     "op in {repeat, repeat_range}; (leaf, alignment, d) for padding. (B) all operator trees of the tier's depth over 8 leaves, "
